@@ -532,6 +532,24 @@ pub fn family_l(thorough: bool, seed: u64, f: &mut dyn FnMut(Input)) {
             }
         }
     }
+    // one gap around the u16 range between two matched characters: the per-character penalty saturates the
+    // running score at zero however long the gap is (no arithmetic on the gap length may wrap)
+    let mut gaps = vec![65_535usize, 65_536, 65_537, 65_600];
+    if thorough {
+        gaps.extend([65_534, 65_538, 66_000, 70_000, 131_073]);
+    }
+    for gap in gaps {
+        for uni in [false, true] {
+            let fill = if uni { 'ä' } else { 'x' };
+            let mut hay: Vec<char> = "foo".chars().collect();
+            hay.extend(std::iter::repeat(fill).take(gap));
+            hay.extend("bar".chars());
+            f(Input { fam: "L", cfg: base, hay: hay.clone(), needle: "foobar".chars().collect() });
+            hay.extend(std::iter::repeat('_').take(40));
+            hay.extend("baz".chars());
+            f(Input { fam: "L", cfg: Cfg { ic: false, nz: false, paths: true }, hay, needle: "fobz".chars().collect() });
+        }
+    }
 }
 
 /// Family W: wide match windows (2 000 - 11 000 characters) with short needles, built so that the
@@ -590,14 +608,18 @@ pub fn generate(plan: &Plan, sink: &mut dyn FnMut(Input)) {
         let a1: Vec<char> = "abA-/ 1".chars().collect();
         let a2: Vec<char> = "aäÄς /".chars().collect();
         let a3: Vec<char> = "aB_: ".chars().collect();
+        // the only two non-ASCII characters that case folding sends to ASCII letters (long s, Kelvin sign)
+        let a4: Vec<char> = "sS\u{17f}kK\u{212a} ".chars().collect();
         if thorough {
             family_e(&a1, 6, 4, 2, 40, plan.seed, sink);
             family_e(&a2, 5, 3, 2, 8, plan.seed, sink);
             family_e(&a3, 6, 3, 2, 8, plan.seed, sink);
+            family_e(&a4, 5, 4, 2, 8, plan.seed, sink);
         } else {
             family_e(&a1, 5, 3, 2, 60, plan.seed, sink);
             family_e(&a2, 4, 3, 2, 12, plan.seed, sink);
             family_e(&a3, 5, 3, 1, 40, plan.seed, sink);
+            family_e(&a4, 4, 3, 1, 6, plan.seed, sink);
         }
     }
     if want("R") {
